@@ -226,19 +226,26 @@ def mip03_winner_chain(w):
     current state; the resulting state of a commit is learnt from any client observed right after it
     applied that commit"""
     result_token = {}
+    prev = {}
     for i, (cmd, res, fp) in enumerate(w.trace):
         t = cmd.split()
         f = parse_fp(fp)
-        if f is None:
-            continue
-        if t[0] == "deliver" and res.split()[0] == "commit":
-            result_token.setdefault(int(t[2]), set()).add(f["token"])
-        if t[0] == "merge" and res == "ok":
-            # the committer's own pending commit: the last commit it published
-            c = int(t[1])
-            mine = [n for n, e in w.events.items() if e["sender"] == c and e["kind"] == "commit"]
-            if mine:
-                result_token.setdefault(max(mine), set()).add(f["token"])
+        c = int(t[1]) if len(t) > 1 and t[1].isdigit() and t[0] not in ("rewrap", "retag") else None
+        if f is not None and c is not None:
+            before = prev.get(c)
+            if t[0] == "deliver" and res.split()[0] == "commit":
+                n = int(t[2])
+                e = w.events.get(n)
+                # the state a client is in right after it APPLIED the commit (it was in the parent state before)
+                # (directly from the parent state, or after the rollback this delivery triggered)
+                if e is not None and before is not None and f["token"] != before["token"]:
+                    result_token.setdefault(n, set()).add(f["token"])
+            if t[0] == "merge" and res == "ok" and before is not None and f["token"] != before["token"]:
+                mine = [n for n, e in w.events.items() if e["sender"] == c and e["kind"] == "commit" and e["parent_token"] == before["token"]]
+                if mine:
+                    result_token.setdefault(max(mine), set()).add(f["token"])
+        if c is not None:
+            prev[c] = f
     return result_token
 
 def oracle_world(w):
